@@ -401,3 +401,36 @@ fn c24_total_unary() {
     kani::cover!(c.is_ok(), "a truth value");
     std::mem::forget((a, b, c, x));
 }
+
+pub fn any_scalar13_pub() -> SqlValue {
+    any_scalar13()
+}
+
+/// BETWEEN and simple-CASE equality on ANY heap-free operands: a value or an error, never a
+/// panic; CASE equality is symmetric.
+#[kani::proof]
+#[kani::unwind(8)]
+#[kani::stub(std::fmt::format, format_stub)]
+fn c24_total_case_equality() {
+    let a = any_scalar13();
+    let b = any_scalar13();
+    let ab = h::values_are_equal(&a, &b);
+    let ba = h::values_are_equal(&b, &a);
+    assert!(ab == ba, "simple CASE equality is symmetric");
+    if a.is_null() || b.is_null() {
+        assert!(!ab, "NULL never matches in a simple CASE");
+    }
+    kani::cover!(ab, "a match");
+    std::mem::forget((a, b));
+}
+
+#[kani::proof]
+#[kani::unwind(8)]
+fn c24_total_to_f64() {
+    let a = any_scalar13();
+    let f = h::to_f64(&a);
+    let i = h::to_i64(&a);
+    kani::cover!(f.is_ok(), "numeric");
+    kani::cover!(f.is_err() && i.is_err(), "not numeric");
+    std::mem::forget((f, i, a));
+}
